@@ -265,10 +265,11 @@ pub fn check_case(sb: &Sandbox, seed: u64, idx: usize, case: &Case, nsched: usiz
             *r.probes.entry("schedules_with_split_interface_dirs").or_insert(0) += 1;
         }
         // (1) acceptance agrees
-        if whole_panic || sep.steps.iter().any(|s| s.result.starts_with("PANIC")) {
-            // crashes are C04's business; acceptance cannot be compared
-            *r.probes.entry("skipped_because_of_panic").or_insert(0) += 1;
+        if whole_panic && sep.steps.iter().any(|s| s.result.starts_with("PANIC")) {
+            // both pipelines crash: that is C04's business; acceptance cannot be compared
+            *r.probes.entry("skipped_because_both_pipelines_panic").or_insert(0) += 1;
         } else if whole_ok != sep.ok {
+            // (a pipeline that crashes has not accepted the project)
             let detail = match &sep.failure {
                 Some((step, msg)) => format!("separate compilation fails at `{step}` ({msg})"),
                 None => format!("separate compilation succeeds; whole-program says {}: {:?} {}", wsum.kind, wsum.diagnostics.first(), wsum.message),
